@@ -12,15 +12,31 @@ open EmitModel.Sched
     `retryMax` back-off waits in between. -/
 def cycle (cfg : Cfg) : Nat := 2 * cfg.retryMax + 3
 
-/-- Upper bound on the receiver steps until the receiver is back at the head of its loop (or has returned). -/
-def phase (cfg : Cfg) (s : St) : Nat :=
-  match s.rx with
+/-- Upper bound on the receiver LOOP steps (callback invocations not counted) until the receiver is back at the
+    head of its loop (or has returned); `c` = `Retry.current`. -/
+def phaseRx (cfg : Cfg) (c : Nat) : Rx → Nat
   | .idle => 0
   | .taken b _ _ o => if b.length > 0 then 2 * cfg.retryMax + 2 else if o then 2 else 1
-  | .processing _ _ _ => 2 * (cfg.retryMax - s.retryCur) + 1
-  | .retryWait _ _ _ => 2 * (cfg.retryMax - s.retryCur) + 2
+  | .processing _ _ _ => 2 * (cfg.retryMax - c) + 1
+  | .retryWait _ _ _ => 2 * (cfg.retryMax - c) + 2
+  | .notifying _ => 0
   | .idleWait => 1
   | .done => 0
+
+def phase (cfg : Cfg) (s : St) : Nat := phaseRx cfg s.retryCur s.rx
+
+@[simp] theorem phaseRx_idle (cfg : Cfg) (c : Nat) : phaseRx cfg c .idle = 0 := rfl
+@[simp] theorem phaseRx_taken (cfg : Cfg) (c : Nat) (b tw fw : List Nat) (o : Bool) :
+    phaseRx cfg c (.taken b tw fw o) = if b.length > 0 then 2 * cfg.retryMax + 2 else if o then 2 else 1 := rfl
+@[simp] theorem phaseRx_processing (cfg : Cfg) (c : Nat) (a b ws : List Nat) :
+    phaseRx cfg c (.processing a b ws) = 2 * (cfg.retryMax - c) + 1 := rfl
+@[simp] theorem phaseRx_retryWait (cfg : Cfg) (c : Nat) (a b ws : List Nat) :
+    phaseRx cfg c (.retryWait a b ws) = 2 * (cfg.retryMax - c) + 2 := rfl
+@[simp] theorem phaseRx_notifying (cfg : Cfg) (c : Nat) (ws : List Nat) : phaseRx cfg c (.notifying ws) = 0 := rfl
+@[simp] theorem phaseRx_idleWait (cfg : Cfg) (c : Nat) : phaseRx cfg c .idleWait = 1 := rfl
+@[simp] theorem phaseRx_done (cfg : Cfg) (c : Nat) : phaseRx cfg c .done = 0 := rfl
+@[simp] theorem phaseRx_afterNotify (cfg : Cfg) (c : Nat) (ws : List Nat) : phaseRx cfg c (afterNotify ws) = 0 := by
+  cases ws <;> rfl
 
 theorem phase_le (cfg : Cfg) (s : St) (h : InvBound cfg s) : phase cfg s ≤ 2 * cfg.retryMax + 2 := by
   unfold phase
@@ -29,7 +45,7 @@ theorem phase_le (cfg : Cfg) (s : St) (h : InvBound cfg s) : phase cfg s ≤ 2 *
   case taken b tw fw o => simp; split <;> (try split) <;> omega
   all_goals simp <;> omega
 
-/-- Every receiver step not taken from the loop head brings the receiver strictly closer to it. -/
+/-- Every receiver loop step not taken from the loop head brings the receiver strictly closer to it. -/
 theorem phase_step_rx (cfg : Cfg) (s : St) (l : Label) (s' : St) (h : InvBound cfg s) (hl : l.isRx = true)
     (hne : s.rx ≠ .idle) (hs : step cfg s l = some s') : phase cfg s' < phase cfg s := by
   have hp : ∀ o c w, s.rx = .processing o c w → s.retryCur ≤ cfg.retryMax := fun o c w e => (h.proc o c w e).1
@@ -42,11 +58,26 @@ theorem phase_step_rx (cfg : Cfg) (s : St) (l : Label) (s' : St) (h : InvBound c
       simp_all [phase]
       try omega
 
+/-- The individual callback invocations. -/
+def Label.isFire : Label → Bool
+  | .rxFireTake | .rxFireFlush => true
+  | _ => false
+
+/-- A callback invocation does not move the receiver along its loop. -/
+theorem fire_step_phase (cfg : Cfg) (s : St) (l : Label) (s' : St) (hf : l.isFire = true)
+    (hs : step cfg s l = some s') :
+    phase cfg s' = phase cfg s ∧ s'.tornDown = s.tornDown ∧ s'.rx.takenBatch = s.rx.takenBatch ∧
+    s'.pending = s.pending ∧ s'.senderAlive = s.senderAlive ∧ s'.isOpen = s.isOpen := by
+  cases l <;> simp [Label.isFire] at hf
+  all_goals
+    step_elim hs
+    all_goals simp_all [phase]
 
 /-- Steps of the environment (senders, flushers, dropping the sender) leave the receiver where it is. -/
-theorem env_step_rx (cfg : Cfg) (s : St) (l : Label) (s' : St) (hl : l.isRx = false) (hd : l ≠ .dropReceiver)
+theorem env_step_rx (cfg : Cfg) (s : St) (l : Label) (s' : St) (hl : l.isRx = false) (hf : l.isFire = false)
+    (hd : l ≠ .dropReceiver)
     (hs : step cfg s l = some s') : s'.rx = s.rx ∧ s'.retryCur = s.retryCur ∧ s'.tornDown = s.tornDown := by
-  cases l <;> simp [Label.isRx] at hl hd
+  cases l <;> simp [Label.isRx, Label.isFire] at hl hd hf
   case send x => step_elim hs; exact ⟨(send_bound cfg s x).1, (send_bound cfg s x).2.1, (send_reg cfg s x).2⟩
   case trySend x =>
     step_elim hs; exact ⟨(trySend_bound cfg s x).1, (trySend_bound cfg s x).2.1, (trySend_reg cfg s x).2⟩
@@ -54,9 +85,10 @@ theorem env_step_rx (cfg : Cfg) (s : St) (l : Label) (s' : St) (hl : l.isRx = fa
     step_elim hs
     all_goals simp
 
-theorem env_step_phase (cfg : Cfg) (s : St) (l : Label) (s' : St) (hl : l.isRx = false) (hd : l ≠ .dropReceiver)
+theorem env_step_phase (cfg : Cfg) (s : St) (l : Label) (s' : St) (hl : l.isRx = false) (hf : l.isFire = false)
+    (hd : l ≠ .dropReceiver)
     (hs : step cfg s l = some s') : phase cfg s' = phase cfg s := by
-  obtain ⟨e1, e2, _⟩ := env_step_rx cfg s l s' hl hd hs
+  obtain ⟨e1, e2, _⟩ := env_step_rx cfg s l s' hl hf hd hs
   simp [phase, e1, e2]
 
 theorem dropReceiver_tornDown (cfg : Cfg) (s s' : St) (hs : step cfg s .dropReceiver = some s') :
@@ -132,7 +164,7 @@ theorem invLiveF_step (cfg : Cfg) (w : Nat) (s : St) (l : Label) (s' : St) (h : 
   all_goals
     step_elim hs
     all_goals
-      simp_all [GoalF, Rx.ws]
+      simp_all [GoalF]
       try grind
 
 
@@ -146,9 +178,19 @@ theorem rankF_env (cfg : Cfg) (w : Nat) (s : St) (l : Label) (s' : St) (hl : l.i
     (hs : step cfg s l = some s') : GoalF w s' ∨ rankF cfg w s' ≤ rankF cfg w s := by
   by_cases hd : l = .dropReceiver
   · subst hd; exact Or.inl (Or.inr (dropReceiver_tornDown cfg s s' hs))
+  by_cases hf : l.isFire = true
+  · -- a callback runs: it is `w` (goal), or `w` stays where it is
+    have hp := (fire_step_phase cfg s l s' hf hs).1
+    cases l <;> simp [Label.isFire] at hf
+    all_goals
+      step_elim hs
+      all_goals
+        simp_all [rankF, GoalF, phase]
+        try grind
   · right
-    have hp := env_step_phase cfg s l s' hl hd hs
-    have hr := (env_step_rx cfg s l s' hl hd hs).1
+    simp only [Bool.not_eq_true] at hf
+    have hp := env_step_phase cfg s l s' hl hf hd hs
+    have hr := (env_step_rx cfg s l s' hl hf hd hs).1
     simp [rankF, hp, hr]
 
 theorem rankF_rx (cfg : Cfg) (w : Nat) (s : St) (l : Label) (s' : St) (h : InvLiveF cfg w s) (hg : ¬ GoalF w s)
@@ -163,7 +205,7 @@ theorem rankF_rx (cfg : Cfg) (w : Nat) (s : St) (l : Label) (s' : St) (h : InvLi
     have hb' := invBound_step cfg s l s' hb hs
     have hle := phase_le cfg s' hb'
     cases l <;> simp [Label.isRx] at hl
-    all_goals (step_elim hs <;> simp_all [rankF, Rx.ws, phase, cycle, GoalF] <;> omega)
+    all_goals (step_elim hs <;> simp_all [rankF, phase, cycle, GoalF] <;> omega)
   · have hlt := phase_step_rx cfg s l s' hb hl hidle hs
     by_cases hws : w ∈ s.rx.ws
     · -- attached to the batch the receiver holds: stays attached or fires
@@ -171,11 +213,11 @@ theorem rankF_rx (cfg : Cfg) (w : Nat) (s : St) (l : Label) (s' : St) (h : InvLi
       all_goals
         step_elim hs
         all_goals
-          simp_all [rankF, Rx.ws, GoalF]
+          simp_all [rankF, GoalF]
     · right
       have hw' : w ∉ s'.rx.ws := by
         cases l <;> simp [Label.isRx] at hl
-        all_goals (step_elim hs <;> simp_all [Rx.ws])
+        all_goals (step_elim hs <;> simp_all)
       simp [rankF, hws, hw']; omega
 
 
@@ -247,7 +289,7 @@ theorem invLiveT_step (cfg : Cfg) (w : Nat) (s : St) (l : Label) (s' : St) (h : 
   all_goals
     step_elim hs
     all_goals
-      simp_all [GoalT, Rx.takeWs]
+      simp_all [GoalT]
       try grind
 
 theorem goalT_stable (cfg : Cfg) (w : Nat) (s : St) (l : Label) (s' : St) (hg : GoalT w s)
@@ -260,9 +302,18 @@ theorem rankT_env (cfg : Cfg) (w : Nat) (s : St) (l : Label) (s' : St) (hl : l.i
     (hs : step cfg s l = some s') : GoalT w s' ∨ rankT cfg w s' ≤ rankT cfg w s := by
   by_cases hd : l = .dropReceiver
   · subst hd; exact Or.inl (Or.inr (dropReceiver_tornDown cfg s s' hs))
+  by_cases hf : l.isFire = true
+  · have hp := (fire_step_phase cfg s l s' hf hs).1
+    cases l <;> simp [Label.isFire] at hf
+    all_goals
+      step_elim hs
+      all_goals
+        simp_all [rankT, GoalT, phase]
+        try grind
   · right
-    have hp := env_step_phase cfg s l s' hl hd hs
-    have hr := (env_step_rx cfg s l s' hl hd hs).1
+    simp only [Bool.not_eq_true] at hf
+    have hp := env_step_phase cfg s l s' hl hf hd hs
+    have hr := (env_step_rx cfg s l s' hl hf hd hs).1
     simp [rankT, hp, hr]
 
 theorem rankT_rx (cfg : Cfg) (w : Nat) (s : St) (l : Label) (s' : St) (h : InvLiveT cfg w s) (hg : ¬ GoalT w s)
@@ -274,18 +325,18 @@ theorem rankT_rx (cfg : Cfg) (w : Nat) (s : St) (l : Label) (s' : St) (h : InvLi
     · exact a
   by_cases hidle : s.rx = .idle
   · cases l <;> simp [Label.isRx] at hl
-    all_goals (step_elim hs <;> simp_all [rankT, Rx.takeWs, phase, GoalT])
+    all_goals (step_elim hs <;> simp_all [rankT, phase, GoalT])
   · have hlt := phase_step_rx cfg s l s' hb hl hidle hs
     by_cases hws : w ∈ s.rx.takeWs
     · cases l <;> simp [Label.isRx] at hl
       all_goals
         step_elim hs
         all_goals
-          simp_all [rankT, Rx.takeWs, GoalT]
+          simp_all [rankT, GoalT]
     · right
       have hw' : w ∉ s'.rx.takeWs := by
         cases l <;> simp [Label.isRx] at hl
-        all_goals (step_elim hs <;> simp_all [Rx.takeWs])
+        all_goals (step_elim hs <;> simp_all)
       simp [rankT, hws, hw']; omega
 
 theorem empty_fires_within (cfg : Cfg) (w : Nat) (s : St) (hb : InvBound cfg s)
@@ -377,16 +428,21 @@ theorem invLiveI_step (cfg : Cfg) (x : Nat) (s : St) (l : Label) (s' : St) (h : 
   all_goals
     step_elim hs
     all_goals
-      simp_all [GoalI, Rx.takenBatch]
+      simp_all [GoalI]
       try grind
 
 theorem rankI_env (cfg : Cfg) (x : Nat) (s : St) (l : Label) (s' : St) (hl : l.isRx = false)
     (hs : step cfg s l = some s') : GoalI x s' ∨ rankI cfg x s' ≤ rankI cfg x s := by
   by_cases hd : l = .dropReceiver
   · subst hd; exact Or.inl (Or.inr (Or.inr (dropReceiver_tornDown cfg s s' hs)))
+  by_cases hf : l.isFire = true
   · right
-    have hp := env_step_phase cfg s l s' hl hd hs
-    have hr := (env_step_rx cfg s l s' hl hd hs).1
+    obtain ⟨hp, _, hb, _⟩ := fire_step_phase cfg s l s' hf hs
+    simp [rankI, hp, hb]
+  · right
+    simp only [Bool.not_eq_true] at hf
+    have hp := env_step_phase cfg s l s' hl hf hd hs
+    have hr := (env_step_rx cfg s l s' hl hf hd hs).1
     simp [rankI, hp, hr]
 
 theorem rankI_rx (cfg : Cfg) (x : Nat) (s : St) (l : Label) (s' : St) (h : InvLiveI cfg x s) (hg : ¬ GoalI x s)
@@ -398,18 +454,18 @@ theorem rankI_rx (cfg : Cfg) (x : Nat) (s : St) (l : Label) (s' : St) (h : InvLi
     · exact a
   by_cases hidle : s.rx = .idle
   · cases l <;> simp [Label.isRx] at hl
-    all_goals (step_elim hs <;> simp_all [rankI, Rx.takenBatch, phase, GoalI])
+    all_goals (step_elim hs <;> simp_all [rankI, phase, GoalI])
   · have hlt := phase_step_rx cfg s l s' hb hl hidle hs
     by_cases hws : x ∈ s.rx.takenBatch
     · cases l <;> simp [Label.isRx] at hl
       all_goals
         step_elim hs
         all_goals
-          simp_all [rankI, Rx.takenBatch, GoalI]
+          simp_all [rankI, GoalI]
     · right
       have hw' : x ∉ s'.rx.takenBatch := by
         cases l <;> simp [Label.isRx] at hl
-        all_goals (step_elim hs <;> simp_all [Rx.takenBatch])
+        all_goals (step_elim hs <;> simp_all)
       simp [rankI, hws, hw']; omega
 
 theorem item_processed_within (cfg : Cfg) (x : Nat) (s : St) (hb : InvBound cfg s)
@@ -472,6 +528,13 @@ theorem rankD_env (cfg : Cfg) (s : St) (l : Label) (s' : St) (h : InvLiveD cfg s
   case whenEmpty w => simp [step, ha] at hs
   case dropSender => simp [step, ha] at hs
   case dropReceiver => left; step_elim hs <;> rfl
+  case rxFireTake => right; step_elim hs; simp_all [rankD, phase]
+  case rxFireFlush =>
+    right
+    step_elim hs
+    · simp_all [rankD, phase]
+    · rename_i ws _
+      cases ws <;> simp_all [rankD, phase, afterNotify]
 
 theorem rankD_rx (cfg : Cfg) (s : St) (l : Label) (s' : St) (h : InvLiveD cfg s) (_hg : ¬ GoalD s)
     (hl : l.isRx = true) (hs : step cfg s l = some s') : GoalD s' ∨ rankD cfg s' < rankD cfg s := by
